@@ -24,13 +24,20 @@ RULE = (
 ASSUMPTIONS = ["R-LIT (vf/rlit.py) with the generator's condition annotations is the reference"]
 
 
-def lit_protected(lit: Lit, det: str) -> bool:
-    for val in lit_valuations(det, lit.g):
-        cs, _ = lit.walks(val)
+def lit_protected(lit: Lit, det: str, pin=None) -> bool:
+    alts = lit_valuations(det, lit.g)
+    if pin is not None and det != "group-size-check":
+        # pinned component: the first statement asserts `txn GroupIndex == pin`, so a read through that very
+        # absolute index is a read of the governed transaction's own field
+        alts = [[dict(v, __own_index__=pin) for v in alt] for alt in alts]
+    for alt in alts:
         if det == "group-size-check":
+            cs, _ = lit.walks(alt[0])
             if any(lit.abs_read_block[b] for b in cs):
                 return False
-        elif cs:
+        # two-field detectors: the fields are read one at a time (the other one free, like every other
+        # condition); the dangerous value is excluded when one of the fields excludes it on its own
+        elif all(lit.walks(v)[0] for v in alt):
             return False
     return True
 
@@ -52,7 +59,7 @@ def check(case):
     checks_outside_entry = any(i > first_block_end for i in lit.ann if g.seq[i].op in ("assert", "bz", "bnz", "return") and lit.ann[i][0] not in ("true", "false"))
     for det in names:
         checks_field = bool(used & set(GOVERNED_FIELDS[det]))
-        prot = lit_protected(lit, det)
+        prot = lit_protected(lit, det, case.get("pin"))
         if prot:
             if checks_field:
                 counters["protected_pairs"] += 1
@@ -70,7 +77,10 @@ def components(tier, disabled):
     q = tier == "quick"
     return {
         "lsig": {"strategy": semantic_program(profile="direct", disabled=disabled, max_stmts=(12 if q else 18), mode="lsig"),
-                 "check": check, "examples": 1600 if q else 60000, "sample": lambda c, i: RCFG(c).text},
+                 "check": check, "examples": 3000 if q else 60000, "sample": lambda c, i: RCFG(c).text},
         "app": {"strategy": semantic_program(profile="direct", disabled=disabled, max_stmts=(12 if q else 18), mode="app"),
-                "check": check, "examples": 1200 if q else 40000, "sample": lambda c, i: RCFG(c).text},
+                "check": check, "examples": 2400 if q else 40000, "sample": lambda c, i: RCFG(c).text},
+        # own position asserted by the first statement, governed fields read as `gtxn i F` / `int i; gtxns F`
+        "pinned": {"strategy": semantic_program(profile="direct", disabled=disabled, max_stmts=(10 if q else 16), pinned=True),
+                   "check": check, "examples": 1600 if q else 30000, "sample": lambda c, i: RCFG(c).text},
     }
